@@ -10,6 +10,54 @@ use core::fmt::{self, Write};
 use micromap::{Map, Set};
 use std::panic::{catch_unwind, resume_unwind, AssertUnwindSafe};
 
+/// Formats `$x` into `$sink` with one of eight format specifications per style; the same macro
+/// renders the mirror, so the expectation is "whatever std does for this spec".
+macro_rules! fmt_dbg {
+    ($sink:expr, $style:expr, $spec:expr, $x:expr) => {
+        match ($style == Style::Alt, $spec % 8) {
+            (false, 0) => write!($sink, "{:?}", $x),
+            (false, 1) => write!($sink, "{:40?}", $x),
+            (false, 2) => write!($sink, "{:>40?}", $x),
+            (false, 3) => write!($sink, "{:*^40?}", $x),
+            (false, 4) => write!($sink, "{:.3?}", $x),
+            (false, 5) => write!($sink, "{:+?}", $x),
+            (false, 6) => write!($sink, "{:08?}", $x),
+            (false, _) => write!($sink, "{:<3?}", $x),
+            (true, 0) => write!($sink, "{:#?}", $x),
+            (true, 1) => write!($sink, "{:#40?}", $x),
+            (true, 2) => write!($sink, "{:>#40?}", $x),
+            (true, 3) => write!($sink, "{:*^#40?}", $x),
+            (true, 4) => write!($sink, "{:#.3?}", $x),
+            (true, 5) => write!($sink, "{:+#?}", $x),
+            (true, 6) => write!($sink, "{:#08?}", $x),
+            (true, _) => write!($sink, "{:<#3?}", $x),
+        }
+    };
+}
+macro_rules! fmt_disp {
+    ($sink:expr, $spec:expr, $x:expr) => {
+        match $spec % 8 {
+            0 => write!($sink, "{}", $x),
+            1 => write!($sink, "{:40}", $x),
+            2 => write!($sink, "{:>40}", $x),
+            3 => write!($sink, "{:*^40}", $x),
+            4 => write!($sink, "{:.3}", $x),
+            5 => write!($sink, "{:+}", $x),
+            6 => write!($sink, "{:08}", $x),
+            _ => write!($sink, "{:#}", $x),
+        }
+    };
+}
+macro_rules! fmt_with {
+    ($sink:expr, $style:expr, $spec:expr, $x:expr) => {
+        if $style == Style::Display {
+            fmt_disp!($sink, $spec, $x)
+        } else {
+            fmt_dbg!($sink, $style, $spec, $x)
+        }
+    };
+}
+
 struct MirrorMap<'a>(&'a [(u64, u64)]);
 impl fmt::Debug for MirrorMap<'_> {
     fn fmt(&self, f: &mut fmt::Formatter<'_>) -> fmt::Result {
@@ -72,52 +120,56 @@ fn finish<K: SimK, V: SimV>(cx: &mut Cx<K, V>, what: &str, r: std::thread::Resul
                 }
             } else {
                 cx.probe("sink_failed_midway");
+                if res.is_ok() {
+                    violate("wrong-text", format!("{what}: reported success although the sink rejected a write; the sink holds {:?} instead of {:?}", sink.text(), expected));
+                }
             }
         }
     }
 }
 
-pub fn fmt_map<K: SimK, V: SimV, const C: usize>(m: &Map<K, V, C>, cx: &mut Cx<K, V>, style: Style, sc: SinkCfg, pre: &Snap) {
+pub fn fmt_map<K: SimK, V: SimV, const C: usize>(m: &Map<K, V, C>, cx: &mut Cx<K, V>, style: Style, spec: u8, sc: SinkCfg, pre: &Snap) {
     let aw = cx.cfg.alloc_window;
     let mut sink = Sink::new(sc.cap, sc.fail_at);
-    let r = catch_unwind(AssertUnwindSafe(|| match style {
-        Style::Debug => win!(aw, write!(sink, "{:?}", m)),
-        Style::Alt => win!(aw, write!(sink, "{:#?}", m)),
-        Style::Display => win!(aw, write!(sink, "{}", m)),
-    }));
+    if spec % 8 != 0 {
+        cx.probe("format_spec_with_flags");
+    }
+    let r = catch_unwind(AssertUnwindSafe(|| win!(aw, fmt_with!(sink, style, spec, m))));
     crate::alloc::arm(false);
     let e = ids(pre);
     let _p = crate::alloc::Pause::new();
     let expected = match style {
-        Style::Debug => format!("{:?}", MirrorMap(&e)),
-        Style::Alt => format!("{:#?}", MirrorMap(&e)),
         Style::Display => display_expected(&e, false),
+        _ => {
+            let mut s = String::new();
+            let _ = fmt_dbg!(s, style, spec, MirrorMap(&e));
+            s
+        }
     };
     finish(cx, "Map formatting", r, &sink, &expected);
 }
 
-pub fn fmt_set<K: SimK, V: SimV, const C: usize>(s: &Set<K, C>, cx: &mut Cx<K, V>, style: Style, sc: SinkCfg, pre: &Snap) {
+pub fn fmt_set<K: SimK, V: SimV, const C: usize>(s: &Set<K, C>, cx: &mut Cx<K, V>, style: Style, spec: u8, sc: SinkCfg, pre: &Snap) {
     let aw = cx.cfg.alloc_window;
     let mut sink = Sink::new(sc.cap, sc.fail_at);
-    let r = catch_unwind(AssertUnwindSafe(|| match style {
-        Style::Debug => win!(aw, write!(sink, "{:?}", s)),
-        Style::Alt => win!(aw, write!(sink, "{:#?}", s)),
-        Style::Display => win!(aw, write!(sink, "{}", s)),
-    }));
+    let r = catch_unwind(AssertUnwindSafe(|| win!(aw, fmt_with!(sink, style, spec, s))));
     crate::alloc::arm(false);
     let e = ids(pre);
     let _p = crate::alloc::Pause::new();
     let expected = match style {
-        Style::Debug => format!("{:?}", MirrorSet(&e)),
-        Style::Alt => format!("{:#?}", MirrorSet(&e)),
         Style::Display => display_expected(&e, true),
+        _ => {
+            let mut t = String::new();
+            let _ = fmt_dbg!(t, style, spec, MirrorSet(&e));
+            t
+        }
     };
     finish(cx, "Set formatting", r, &sink, &expected);
 }
 
 /// Checks the Debug text of an iterator / drain against the identities it has not yet yielded.
 /// `parts`: 0 = (k, v) tuples, 1 = keys only, 2 = values only.
-pub fn check_iter_text<K: SimK, V: SimV>(cx: &mut Cx<K, V>, what: &str, r: std::thread::Result<fmt::Result>, sink: &Sink, remaining: &[(u64, u64)], parts: u8, alt: bool) {
+pub fn check_iter_text<K: SimK, V: SimV>(cx: &mut Cx<K, V>, what: &str, r: std::thread::Result<fmt::Result>, sink: &Sink, remaining: &[(u64, u64)], parts: u8, style: Style, spec: u8) {
     let _p = crate::alloc::Pause::new();
     if r.is_ok() && !sink.failed {
         let toks = tokens(sink.text());
@@ -163,7 +215,8 @@ pub fn check_iter_text<K: SimK, V: SimV>(cx: &mut Cx<K, V>, what: &str, r: std::
             violate("wrong-text", format!("{what}: Debug lists {:?} but the entries not yet yielded are {want:?}", sink.text()));
             return;
         }
-        let expected = if alt { format!("{:#?}", MirrorList(&listed, parts)) } else { format!("{:?}", MirrorList(&listed, parts)) };
+        let mut expected = String::new();
+        let _ = fmt_dbg!(expected, style, spec, MirrorList(&listed, parts));
         if expected != sink.text() {
             violate("wrong-text", format!("{what}: Debug renders {:?} instead of the standard list rendering {expected:?}", sink.text()));
             return;
@@ -183,6 +236,9 @@ pub fn check_iter_text<K: SimK, V: SimV>(cx: &mut Cx<K, V>, what: &str, r: std::
             }
             if sink.failed {
                 cx.probe("sink_failed_midway");
+                if res.is_ok() {
+                    violate("wrong-text", format!("{what}: reported success although the sink rejected a write"));
+                }
             }
         }
     }
@@ -190,7 +246,8 @@ pub fn check_iter_text<K: SimK, V: SimV>(cx: &mut Cx<K, V>, what: &str, r: std::
 
 /// Debug of a map iterator after `take` items. `which`: 0 IntoIter, 1 IntoKeys, 2 IntoValues,
 /// 3 Drain, 4 Iter, 5 IterMut, 6 Keys, 7 Values, 8 ValuesMut.
-pub fn fmt_iter<K: SimK, V: SimV, const C: usize>(m: &mut Map<K, V, C>, cx: &mut Cx<K, V>, which: u8, take: u8, alt: bool, sc: SinkCfg, pre: &Snap) {
+pub fn fmt_iter<K: SimK, V: SimV, const C: usize>(m: &mut Map<K, V, C>, cx: &mut Cx<K, V>, which: u8, take: u8, alt: bool, spec: u8, sc: SinkCfg, pre: &Snap) {
+    let style = if alt { Style::Alt } else { Style::Debug };
     let aw = cx.cfg.alloc_window;
     let mut sink = Sink::new(sc.cap, sc.fail_at);
     let all = ids(pre);
@@ -200,11 +257,14 @@ pub fn fmt_iter<K: SimK, V: SimV, const C: usize>(m: &mut Map<K, V, C>, cx: &mut
     }
     macro_rules! render {
         ($it:expr) => {
-            catch_unwind(AssertUnwindSafe(|| if alt { win!(aw, write!(sink, "{:#?}", $it)) } else { win!(aw, write!(sink, "{:?}", $it)) }))
+            catch_unwind(AssertUnwindSafe(|| win!(aw, fmt_dbg!(sink, style, spec, $it))))
         };
     }
     // remaining = all entries whose key (or value) was not handed back yet
     let rest = |yk: &Vec<u64>, yv: &Vec<u64>, by_val: bool| -> Vec<(u64, u64)> {
+        if K::ANON && V::ANON {
+            return all.iter().take(all.len() - yk.len().max(yv.len()).min(all.len())).cloned().collect();
+        }
         all.iter().filter(|(k, v)| if by_val { !yv.contains(v) } else { !yk.contains(k) }).cloned().collect()
     };
     let by_val = K::ANON;
@@ -227,7 +287,7 @@ pub fn fmt_iter<K: SimK, V: SimV, const C: usize>(m: &mut Map<K, V, C>, cx: &mut
             if it.len() != rem.len() {
                 violate("changed-by-formatting", format!("IntoIter: {} items left after Debug, {} before", it.len(), rem.len()));
             }
-            check_iter_text(cx, "IntoIter", r, &sink, &rem, 0, alt);
+            check_iter_text(cx, "IntoIter", r, &sink, &rem, 0, style, spec);
             win!(aw, drop(it));
         }
         1 => {
@@ -242,7 +302,7 @@ pub fn fmt_iter<K: SimK, V: SimV, const C: usize>(m: &mut Map<K, V, C>, cx: &mut
             let r = render!(it);
             crate::alloc::arm(false);
             let rem: Vec<(u64, u64)> = if K::ANON { all.iter().skip(0).take(all.len() - yk.len()).cloned().collect() } else { rest(&yk, &yv, false) };
-            check_iter_text(cx, "IntoKeys", r, &sink, &rem, 1, alt);
+            check_iter_text(cx, "IntoKeys", r, &sink, &rem, 1, style, spec);
             win!(aw, drop(it));
         }
         2 => {
@@ -257,7 +317,7 @@ pub fn fmt_iter<K: SimK, V: SimV, const C: usize>(m: &mut Map<K, V, C>, cx: &mut
             let r = render!(it);
             crate::alloc::arm(false);
             let rem: Vec<(u64, u64)> = if V::ANON { all.iter().take(all.len() - yv.len()).cloned().collect() } else { rest(&yk, &yv, true) };
-            check_iter_text(cx, "IntoValues", r, &sink, &rem, 2, alt);
+            check_iter_text(cx, "IntoValues", r, &sink, &rem, 2, style, spec);
             win!(aw, drop(it));
         }
         3 => {
@@ -276,7 +336,7 @@ pub fn fmt_iter<K: SimK, V: SimV, const C: usize>(m: &mut Map<K, V, C>, cx: &mut
             if it.len() != rem.len() {
                 violate("changed-by-formatting", format!("Drain: {} items left after Debug, {} before", it.len(), rem.len()));
             }
-            check_iter_text(cx, "Drain", r, &sink, &rem, 0, alt);
+            check_iter_text(cx, "Drain", r, &sink, &rem, 0, style, spec);
             win!(aw, drop(it));
         }
         4 => {
@@ -293,7 +353,7 @@ pub fn fmt_iter<K: SimK, V: SimV, const C: usize>(m: &mut Map<K, V, C>, cx: &mut
             if it.len() != rem.len() {
                 violate("changed-by-formatting", format!("Iter: {} items left after Debug, {} before", it.len(), rem.len()));
             }
-            check_iter_text(cx, "Iter", r, &sink, &rem, 0, alt);
+            check_iter_text(cx, "Iter", r, &sink, &rem, 0, style, spec);
         }
         5 => {
             let mut it = win!(aw, m.iter_mut());
@@ -309,7 +369,7 @@ pub fn fmt_iter<K: SimK, V: SimV, const C: usize>(m: &mut Map<K, V, C>, cx: &mut
             if it.len() != rem.len() {
                 violate("changed-by-formatting", format!("IterMut: {} items left after Debug, {} before", it.len(), rem.len()));
             }
-            check_iter_text(cx, "IterMut", r, &sink, &rem, 0, alt);
+            check_iter_text(cx, "IterMut", r, &sink, &rem, 0, style, spec);
         }
         6 => {
             let mut it = win!(aw, m.keys());
@@ -324,7 +384,7 @@ pub fn fmt_iter<K: SimK, V: SimV, const C: usize>(m: &mut Map<K, V, C>, cx: &mut
             if it.len() != rem.len() {
                 violate("changed-by-formatting", format!("Keys: {} items left after Debug, {} before", it.len(), rem.len()));
             }
-            check_iter_text(cx, "Keys", r, &sink, &rem, 1, alt);
+            check_iter_text(cx, "Keys", r, &sink, &rem, 1, style, spec);
         }
         7 => {
             let mut it = win!(aw, m.values());
@@ -339,7 +399,7 @@ pub fn fmt_iter<K: SimK, V: SimV, const C: usize>(m: &mut Map<K, V, C>, cx: &mut
             if it.len() != rem.len() {
                 violate("changed-by-formatting", format!("Values: {} items left after Debug, {} before", it.len(), rem.len()));
             }
-            check_iter_text(cx, "Values", r, &sink, &rem, 2, alt);
+            check_iter_text(cx, "Values", r, &sink, &rem, 2, style, spec);
         }
         _ => {
             let mut it = win!(aw, m.values_mut());
@@ -354,7 +414,7 @@ pub fn fmt_iter<K: SimK, V: SimV, const C: usize>(m: &mut Map<K, V, C>, cx: &mut
             if it.len() != rem.len() {
                 violate("changed-by-formatting", format!("ValuesMut: {} items left after Debug, {} before", it.len(), rem.len()));
             }
-            check_iter_text(cx, "ValuesMut", r, &sink, &rem, 2, alt);
+            check_iter_text(cx, "ValuesMut", r, &sink, &rem, 2, style, spec);
         }
     }
 }
